@@ -43,4 +43,26 @@ CHECKS = {
              "default); that Scope layers local over shared root.",
         note="Structural necessary conditions; the rendered text of concrete "
              "nestings is not computed.  dict semantics of CPython trusted."),
+    "C02": dict(
+        technique="taint analysis over all syntactic paths of the embedded "
+                  "escape routine; sink table by abstract interpretation of "
+                  "node construction; routing rules on emission trees; regex "
+                  "character-class inclusion",
+        text="Decides that every construction site of a substitution node "
+             "carries an allowed escape set (& < > and, in attributes, the "
+             "very quote the attribute is written with); that the emitters "
+             "route non-empty escape sets to the escaping routine, convert "
+             "after evaluating and append only the converted value; that on "
+             "all paths of the escaping routine (every value class: None, "
+             "default, bytes, str and subclasses, exact int/float, __html__ "
+             "objects, message objects) a returned string derived from the "
+             "value has passed replace('&'), '<', '>' and the quote in that "
+             "order; that the needs-escape pre-check covers every escaped "
+             "character; that the opt-outs are exactly structure, CDATA and "
+             "text mode.  This is the whole property except what is listed "
+             "in the note.",
+        note="Trusted: str.replace/re semantics; str() of an exact int/"
+             "float is harmless; output of the translation function for "
+             "static template text; dict-attribute *keys* are written raw "
+             "(the statement speaks of values)."),
 }
